@@ -35,6 +35,7 @@ def main():
     ap.add_argument("--no-suite", action="store_true")
     ap.add_argument("--workers", default="8")
     ap.add_argument("--src", default=None, help="directory holding change<k>.diff etc. (default /tmp/seed/<PROP>/out)")
+    ap.add_argument("--tag", default=None, help="name of the filed change: seeded/<PROP>-<tag> (default: k)")
     args = ap.parse_args()
     src = args.src or "/tmp/seed/%s/out" % args.prop
     diff = os.path.join(src, "change%s.diff" % args.k)
@@ -45,7 +46,8 @@ def main():
             sys.exit("missing %s" % f)
     checks = (args.checks or args.prop).split(",")
     base = tempfile.mkdtemp(prefix="seedchk-%s-%s." % (args.prop, args.k))
-    meta = {"property": args.prop, "k": args.k, "checks_run": {}, "at": time.strftime("%Y-%m-%d %H:%M:%S")}
+    args.tag = args.tag or args.k
+    meta = {"property": args.prop, "k": args.tag, "checks_run": {}, "at": time.strftime("%Y-%m-%d %H:%M:%S")}
     try:
         clean, changed = os.path.join(base, "clean"), os.path.join(base, "changed")
         for d in (clean, changed):
@@ -117,7 +119,7 @@ def main():
 
 
 def finish(args, meta, diff, demo, notes):
-    out = os.path.join(VERIF, "seeded", "%s-%s" % (args.prop, args.k))
+    out = os.path.join(VERIF, "seeded", "%s-%s" % (args.prop, args.tag))
     os.makedirs(out, exist_ok=True)
     shutil.copy(diff, os.path.join(out, "patch.diff"))
     shutil.copy(demo, os.path.join(out, "demo.py"))
